@@ -316,7 +316,7 @@ func genDoc(t *rapid.T, p docProfile) *rj.Node {
 	if p.Spine {
 		// one member of the root is a spine of nested containers around the depths at which fixed-size scope stacks
 		// (128 entries) would wrap, with small siblings on the way down and members after it
-		d := []int{rapid.IntRange(120, 140).Draw(t, "spine"), rapid.IntRange(250, 270).Draw(t, "spine2"), rapid.IntRange(20, 119).Draw(t, "spine3")}[rapid.IntRange(0, 2).Draw(t, "spinesel")]
+		d := []int{rapid.IntRange(120, 140).Draw(t, "spine"), rapid.IntRange(250, 270).Draw(t, "spine2"), rapid.IntRange(20, 119).Draw(t, "spine3")}[[]int{0, 0, 0, 2, 2, 1}[rapid.IntRange(0, 5).Draw(t, "spinesel")]]
 		inner := &rj.Node{K: rj.Obj, O: []rj.Member{{Key: []byte("x"), KeySrc: []byte("x"), Val: &rj.Node{K: rj.Num, Lit: "1"}}}}
 		for i := 0; i < d; i++ {
 			switch rapid.IntRange(0, 5).Draw(t, "spinekind") {
